@@ -117,6 +117,7 @@ class Engine:
         sc.setup()
         self.sc = sc
         self._loaded: dict = {}
+        self._sdltext: dict = {}
         self.t = {'load': 0.0, 'migrate': 0.0, 'dump': 0.0, 'replay': 0.0, 'n_load': 0, 'n_migrate': 0}
 
     def load(self, sdl):
@@ -130,6 +131,13 @@ class Engine:
             self.t['load'] += time.time() - t
             self.t['n_load'] += 1
         return self._loaded[sdl]
+
+    def sdl_text(self, sdl, schema):
+        """DESCRIBE SCHEMA AS SDL text of a loaded target (memoised)"""
+        if sdl not in self._sdltext:
+            from edb.schema import ddl as s_ddl
+            self._sdltext[sdl] = s_ddl.sdl_text_from_schema(schema)
+        return self._sdltext[sdl]
 
     def migrate(self, schema, sdl):
         t = time.time()
@@ -162,7 +170,7 @@ def first_sig(diffs) -> str:
     return '+'.join(sorted(sig)[:8]) or 'engine-diff-only'
 
 
-def compare_full(eng: Engine, got, sdl_b, full: bool = True):
+def compare_full(eng: Engine, got, sdl_b, full: bool = True, describe: bool = False):
     """oracle S: `got` equals the independently loaded target.  `full`: also ask the engine's own
     delta_schemas both ways (upstream's criterion); the structural dump is always compared.
     -> (difference lines, dump of `got`)"""
@@ -182,6 +190,19 @@ def compare_full(eng: Engine, got, sdl_b, full: bool = True):
     lines = sc.dump_diff(cl.value_dump(dg), cl.value_dump(dump_b))
     eng.t['flag_only'] = eng.t.get('flag_only', 0) + (1 if (not lines and not out and dg != dump_b) else 0)
     out += lines
+    if describe and not out:
+        # third, text-level view (0.7 s per schema: used for the deterministic regression pairs): DESCRIBE SCHEMA AS SDL of the result and of the target must be the same text
+        from edb.schema import ddl as s_ddl
+        try:
+            tb = eng.sdl_text(sdl_b, b)
+            tg = s_ddl.sdl_text_from_schema(got)
+            if tg != tb:
+                import difflib
+                dl = [x for x in difflib.unified_diff(tg.splitlines(), tb.splitlines(), lineterm='', n=0)
+                      if not x.startswith(('---', '+++', '@@'))]
+                out += ['describe-as-sdl text of the result differs from the target: ' + ' | '.join(dl[:6])[:400]]
+        except Exception as e:
+            out += [f'describe-as-sdl raised {type(e).__name__}: {e}'[:300]]
     eng.t['dump'] += time.time() - t
     return out, dg
 
@@ -227,8 +248,58 @@ def report_text_error(ctx: core.Ctx, route: str, what: str, detail: dict, key_in
     return causes or []
 
 
+def probes_for(sc, schema) -> list:
+    """follow-up probes: for every overloaded pointer of a user type, toggle `required` on the PARENT's pointer"""
+    from edb.schema import objtypes as s_objtypes, links as s_links
+    out = []
+    seen = set()
+    for o in sc._iter_user_objects(schema):
+        if not isinstance(o, s_objtypes.ObjectType) or o.get_expr(schema) is not None:
+            continue
+        for ptr in o.get_pointers(schema).objects(schema):
+            if not ptr.get_owned(schema):
+                continue
+            for base in ptr.get_bases(schema).objects(schema):
+                src = base.get_source(schema)
+                if src is None or src.get_builtin(schema) or base.get_expr(schema) is not None:
+                    continue
+                key = (str(src.get_name(schema)), str(base.get_shortname(schema).name))
+                if key in seen or not base.get_owned(schema):
+                    continue
+                seen.add(key)
+                kw = 'LINK' if isinstance(base, s_links.Link) else 'PROPERTY'
+                op = 'SET OPTIONAL' if base.get_required(schema) else 'SET REQUIRED'
+                out.append(f'ALTER TYPE {key[0]} {{ ALTER {kw} {key[1]} {{ {op}; }}; }};')
+    return sorted(out)
+
+
+def probe_compare(eng: Engine, got, target) -> list:
+    """apply each probe to the reached schema and to the target: the outcomes must agree (same rejection, or schemas
+    equal field by field)"""
+    from props import c02_classify as cl
+    sc = eng.sc
+    lines = []
+    for ddl in probes_for(sc, target)[:4]:
+        res = []
+        for sch in (got, target):
+            try:
+                res.append(cl.value_dump(sc.dump(sc.replay_text(sch, ddl))))
+            except Exception as e:
+                res.append(type(e).__name__)
+        if isinstance(res[0], str) or isinstance(res[1], str):
+            if res[0] != res[1] and (isinstance(res[0], str) != isinstance(res[1], str)):
+                lines.append(f'probe `{ddl}`: result -> {res[0] if isinstance(res[0], str) else "accepted"}, '
+                             f'target -> {res[1] if isinstance(res[1], str) else "accepted"}')
+            continue
+        dd = sc.dump_diff(res[0], res[1])
+        if dd:
+            lines.append(f'probe `{ddl}` propagates differently: ' + ' ; '.join(x[:160] for x in dd[:3]))
+    return lines
+
+
 def check_pair(ctx: core.Ctx, eng: Engine, sdl_a: str, sdl_b: str, tags, *, extra_text_route: bool, stream: str,
-               fixed_key: str | None = None, all_routes: bool = False) -> dict:
+               fixed_key: str | None = None, all_routes: bool = False, probe: bool = False,
+               describe: bool = False) -> dict:
     """one (A, B) pair through all routes (direct apply of the computed migration, stored script as TEXT,
     optionally ddl_text_from_delta as TEXT), each compared with B; returns a record for coverage.
     `fixed_key`: report any failure of this pair under that key (corpus witnesses of known engine defects)."""
@@ -249,13 +320,20 @@ def check_pair(ctx: core.Ctx, eng: Engine, sdl_a: str, sdl_b: str, tags, *, extr
     key_in = h8(sdl_a, sdl_b)
     script = sc.migration_script(r)
     common = dict(a=a, dump_a=dump_a, sdl_b=sdl_b, fixed_key=fixed_key)
-    diffs, dg = compare_full(eng, r, sdl_b)
+    diffs, dg = compare_full(eng, r, sdl_b, describe=describe)
     if diffs:
         rec['causes'] = report(ctx, eng, 'pair', 'accepted migration A -> B does not produce B', detail | {'ddl': script},
                                key_in, got=r, dump_got=dg, script=script, lines=diffs, **common)
         rec['outcome'] = 'FAIL-result'
         if not all_routes:
             return rec
+    elif probe:
+        pl = probe_compare(eng, r, b)
+        if pl:
+            ctx.fail(fixed_key or f'l2-probe:unclassified:{h8(*pl)}:{key_in}',
+                     'the reached schema equals B field by field but a follow-up ALTER of a parent pointer propagates '
+                     'differently on it than on B', detail | {'ddl': script, 'differences': pl})
+            rec['outcome'] = 'FAIL-probe'
     # replay as text: the script stored in the Migration object
     t = time.time()
     try:
@@ -524,22 +602,69 @@ REPARENT_CHAINS = [
      "module default { type T; type A { multi link l -> T; } type P; type B extending P { required link l -> T { property w -> int64; annotation title := 'bl'; } } type C extending B { overloaded required link l -> T; } }"],
 ]
 
+#: deterministic chains "an inheritable facet of an OVERLOADED pointer starts / stops being stated locally with the
+#: value it inherits anyway" (required, multi, readonly; property and link; with a grandchild), alone, followed by a
+#: change of the parent's facet in the NEXT step, and combined with it in the SAME step.  After each reached schema
+#: follow-up probes toggle `required` on the parent's pointer on the result and on the target and compare.
+PINNING_CHAINS = [
+    ["module default { type P { required property x -> str; } type C extending P { overloaded property x -> str "
+     "{ annotation title := 'c'; } } type G extending C; }",
+     "module default { type P { required property x -> str; } type C extending P { overloaded required property x -> str "
+     "{ annotation title := 'c'; } } type G extending C; }",
+     "module default { type P { required property x -> str; } type C extending P { overloaded property x -> str "
+     "{ annotation title := 'c'; } } type G extending C; }",
+     "module default { type P { property x -> str; } type C extending P { overloaded property x -> str "
+     "{ annotation title := 'c'; } } type G extending C; }"],
+    ["module default { type A { required property x -> str; } type B extending A; type C extending B; }",
+     "module default { type A { required property x -> str; } type B extending A { overloaded required property x -> str; } "
+     "type C extending B; }",
+     "module default { type A { property x -> str; } type B extending A { overloaded required property x -> str; } "
+     "type C extending B; }"],
+    ["module default { type T; type A { required multi link l -> T; } type B extending A { overloaded link l -> T "
+     "{ annotation title := 'b'; } } type C extending B; }",
+     "module default { type T; type A { required multi link l -> T; } type B extending A { overloaded required multi link l -> T "
+     "{ annotation title := 'b'; } } type C extending B; }",
+     "module default { type T; type A { multi link l -> T; } type B extending A { overloaded required multi link l -> T "
+     "{ annotation title := 'b'; } } type C extending B; }",
+     "module default { type T; type A { multi link l -> T; } type B extending A { overloaded required link l -> T "
+     "{ annotation title := 'b'; } } type C extending B; }"],
+    ["module default { type A { required property x -> str; } type B extending A { overloaded property x -> str "
+     "{ annotation title := 'b'; } } type C extending B; }",
+     "module default { type A { property x -> str; } type B extending A { overloaded required property x -> str "
+     "{ annotation title := 'b'; } } type C extending B; }",
+     "module default { type A { property x -> str; } type B extending A { overloaded property x -> str "
+     "{ annotation title := 'b'; } } type C extending B; }"],
+]
+
+def regression_chains_for(ctx) -> list:
+    """[(group, chain)] for C10: thorough = all; quick = the first chain of every group (for `pinning` the first two:
+    the shapes of the two seeded diff-blindness changes) plus the remaining ones alternating with the seed parity"""
+    out = []
+    for group, chains in REGRESSION_CHAINS.items():
+        keep = 2 if group == 'pinning' else 1
+        for i, ch in enumerate(chains):
+            if not ctx.quick() or i < keep or i % 2 == ctx.seed % 2:
+                out.append((group, ch))
+    return out
+
+
 #: every deterministic chain (always run first, never cut by the time guard)
-REGRESSION_CHAINS = {'shared': SHARED_CHAINS, 'xmodule': XMODULE_CHAINS, 'reparent': REPARENT_CHAINS}
+REGRESSION_CHAINS = {'pinning': PINNING_CHAINS, 'shared': SHARED_CHAINS, 'xmodule': XMODULE_CHAINS, 'reparent': REPARENT_CHAINS}
 
 
 def run_shared(ctx: core.Ctx, eng: Engine) -> dict:
     """the deterministic regression chains as consecutive pairs: direct apply of the computed migration and the stored
-    script replayed as TEXT are both compared with the target (name sets + every field)"""
+    script replayed as TEXT are both compared with the target (name sets + every field; describe-as-SDL text and
+    follow-up probes for the pinning group).  Quick runs the selection of `regression_chains_for` (the witness shapes of
+    all seeded changes always, the rest alternating with the seed parity); thorough runs everything."""
     out = {}
-    for group, chains in REGRESSION_CHAINS.items():
-        res = {}
-        for ch in chains:
-            for sa, sb in zip(ch, ch[1:]):
-                rec = check_pair(ctx, eng, sa, sb, [group + '-chain-step'], extra_text_route=(group == 'shared'),
-                                 stream=group, all_routes=True)
-                res[rec['outcome']] = res.get(rec['outcome'], 0) + 1
-        out[group] = res
+    for group, ch in regression_chains_for(ctx):
+        res = out.setdefault(group, {})
+        for sa, sb in zip(ch, ch[1:]):
+            rec = check_pair(ctx, eng, sa, sb, [group + '-chain-step'], extra_text_route=(group == 'shared'),
+                             stream=group, all_routes=True, probe=(group == 'pinning'),
+                             describe=group in ('pinning', 'xmodule'))
+            res[rec['outcome']] = res.get(rec['outcome'], 0) + 1
     ctx.log('deterministic regression pairs:', out)
     return out
 
@@ -562,7 +687,17 @@ def gen_pair(rng, sc):
         if tags:
             b, t2 = sc.mutate(rng, b, rng.choice([0, 0, 1]))
             return a, b, list(tags) + list(t2)
-    if k < 0.40:
+    if k < 0.36:
+        # pin / unpin an inheritable facet of an overloaded pointer with the value it inherits anyway, alone or combined
+        # with a change of the parent's facet in the same step
+        a = sc.gen_spec(rng, size, features=set(sc.DEFAULT_FEATURES) | {'pinned_facets', 'overloaded', 'inherit'})
+        b, tags = sc.mutate(rng, a, 1, kinds=['pin_facet', 'unpin_facet'])
+        if tags:
+            if rng.random() < 0.4:
+                b, t2 = sc.mutate(rng, b, 1, kinds=['parent_facet_toggle'])
+                tags = list(tags) + list(t2)
+            return a, b, list(tags)
+    if k < 0.42:
         # cross-module renames (move a type / another object to another module, rename a module) and re-parenting
         # of a type that owns an overload to bases that do not define the pointer
         a = sc.gen_spec(rng, size, features=set(sc.DEFAULT_FEATURES) | {'modules', 'overloaded', 'inherit'})
@@ -572,7 +707,7 @@ def gen_pair(rng, sc):
             b, t2 = sc.mutate(rng, b, rng.choice([0, 0, 1]))
             return a, b, list(tags) + list(t2)
     a = sc.gen_spec(rng, size)
-    if k < 0.48:
+    if k < 0.50:
         # rebases inside rich schemas: multi-group inserts / adjacent drops, possibly followed by other mutations
         b, tags = sc.mutate(rng, a, 1, kinds=['rebase_multi', 'drop_adjacent_bases'])
         if tags:
@@ -634,7 +769,8 @@ def run_level2(ctx: core.Ctx, n_pairs: int, deadline_s: float | None = None) -> 
         done += 1
         a, b, tags = gen_pair(rng, sc)
         sa, sb = sc.render(a), sc.render(b)
-        rec = check_pair(ctx, eng, sa, sb, tags, extra_text_route=(i % 4 == 0) or not ctx.quick(), stream='pairs')
+        rec = check_pair(ctx, eng, sa, sb, tags, extra_text_route=(i % 4 == 0) or not ctx.quick(), stream='pairs',
+                         probe=any(t.startswith(('pin_facet', 'unpin_facet')) for t in tags))
         outcomes[rec['outcome']] = outcomes.get(rec['outcome'], 0) + 1
         if rec['outcome'] == 'ok':
             for t in tags:
